@@ -142,6 +142,10 @@ type node struct {
 	appHash string
 	obs     StepObs
 	dead    bool // diverged or halted: not expanded
+	// a node without a snapshot of its own (memory cap reached) is re-derived when it is expanded: restore
+	// the nearest ancestor that has one and replay the letters in between
+	anc    *node
+	suffix []int
 }
 
 // Violation is a discrepancy owned by the property being checked, with the path that reaches it.
@@ -169,6 +173,7 @@ type Stats struct {
 	Outcomes              map[string]int `json:"outcomes"` // action kind/result histogram
 	Foreign               map[string]int `json:"foreign_discrepancies,omitempty"`
 	DeadStates            int            `json:"dead_states,omitempty"`
+	LazyNodes             int            `json:"nodes_rederived_from_an_ancestor_snapshot,omitempty"`
 	ConformanceMismatches int            `json:"conformance_mismatches,omitempty"`
 	MaxFrontier           int            `json:"max_frontier"`
 	Samples               [][]string     `json:"-"`
@@ -316,6 +321,7 @@ func (s *Scenario) Explore(opt Options) (Stats, []Violation) {
 	st.States = 1
 	st.Samples = append(st.Samples, names(rootPath))
 	newCount := 0
+	var liveBytes int64
 
 	for depth := 1; depth <= opt.Depth && len(frontier) > 0; depth++ {
 		if len(frontier) > st.MaxFrontier {
@@ -373,10 +379,22 @@ func (s *Scenario) Explore(opt Options) (Stats, []Violation) {
 						for _, ai := range p.path {
 							e.Run(&s.Actions[ai], false)
 						}
-					} else {
+					} else if p.snap != nil {
 						e.W.Restore(p.snap)
 						e.M = p.m.Clone()
 						e.Aux = cloneAux(p.aux)
+					} else {
+						e.W.Restore(p.anc.snap)
+						e.M = p.anc.m.Clone()
+						e.Aux = cloneAux(p.anc.aux)
+						visit := e.Visit
+						if s.VisitPure {
+							e.Visit = nil
+						}
+						for _, ai := range p.suffix {
+							e.Run(&s.Actions[ai], false)
+						}
+						e.Visit = visit
 					}
 					obs, discs := e.Run(&s.Actions[j.act], !opt.NoOracle)
 					r := result{job: j, obs: obs, discs: discs}
@@ -393,7 +411,7 @@ func (s *Scenario) Explore(opt Options) (Stats, []Violation) {
 						}
 						// states of the last level are never expanded, and nothing is kept once the level's
 						// snapshots exceed the memory cap (the search then ends with this level)
-						if take && depth < opt.Depth && atomic.LoadInt64(&levelBytes) < memCap {
+						if take && depth < opt.Depth && atomic.LoadInt64(&liveBytes)+atomic.LoadInt64(&levelBytes) < memCap {
 							r.snap = e.W.Snapshot()
 							r.m = e.M
 							r.aux = e.Aux
@@ -454,6 +472,15 @@ func (s *Scenario) Explore(opt Options) (Stats, []Violation) {
 			st.States++
 			newCount++
 			n := &node{path: path, snap: r.snap, m: r.m, aux: r.aux, key: r.key, appHash: r.obs.AppHash, obs: r.obs, dead: r.obs.Diverged || divergent(r.discs)}
+			if n.snap == nil && depth < opt.Depth { // lazily re-derived from the nearest ancestor with a snapshot
+				if p.snap != nil {
+					n.anc, n.suffix = p, []int{r.job.act}
+				} else {
+					n.anc, n.suffix = p.anc, append(append([]int{}, p.suffix...), r.job.act)
+				}
+				st.LazyNodes++
+			}
+			n.obs.Txs = nil // observations are reported with the transition; the node keeps what its expansion needs
 			if n.dead {
 				st.DeadStates++
 			}
@@ -522,10 +549,9 @@ func (s *Scenario) Explore(opt Options) (Stats, []Violation) {
 		st.Replayed += len(toReplay)
 		frontier = nextFrontier
 		st.DepthCompleted = depth
-		if levelBytes >= memCap {
-			st.StoppedBy = fmt.Sprintf("memory cap (%d MB of snapshots in one level) after depth %d", memCap>>20, depth)
-			break
-		}
+		// snapshots of this level stay alive while the next one is built; those of the level before are
+		// garbage now, except where lazy nodes still point at them (counted with the level that created them)
+		liveBytes = levelBytes
 		if opt.MaxStates > 0 && st.States >= opt.MaxStates {
 			st.StoppedBy = fmt.Sprintf("state cap %d after depth %d", opt.MaxStates, depth)
 			break
@@ -571,8 +597,10 @@ func divergent(ds []Disc) bool {
 	return false
 }
 
-// memCap bounds the snapshots kept for one BFS level (VERIF_MEM_CAP_MB, default 6144); reaching it ends a
-// search after the level in progress with exhaustive:false, like a time budget does.
+// memCap bounds the snapshots kept for two adjacent BFS levels (VERIF_MEM_CAP_MB, default 6144). Once it
+// is reached, further states keep no snapshot of their own: they are re-derived, when expanded, from the
+// nearest ancestor that has one by replaying the letters in between (more time per transition, no more
+// memory), so the search goes on until its depth bound or time budget.
 var memCap = func() int64 {
 	if n, err := strconv.Atoi(os.Getenv("VERIF_MEM_CAP_MB")); err == nil && n > 0 {
 		return int64(n) << 20
